@@ -651,7 +651,7 @@ var clauseKeywords = map[string]bool{
 	"decreases": true, "trusted": true, "pure": true, "pred": true, "fn": true,
 	"lemma": true, "axiom": true, "call": true, "assert": true, "abstracts": true,
 	"props": true, "uses": true, "noinline": true, "ghost": true, "induct": true,
-	"package": true, "recfn": true, "opred": true, "ufn": true, "bounded": true, "use": true, "pattern": true, "irrelevant": true, "mutates": true, "ghostset": true, "closes": true, "guard": true, "owner": true,
+	"package": true, "recfn": true, "opred": true, "ufn": true, "bounded": true, "use": true, "pattern": true, "irrelevant": true, "mutates": true, "ghostset": true, "closes": true, "guard": true, "owner": true, "ownership": true,
 }
 
 func firstWord(s string) string {
@@ -732,6 +732,14 @@ func parseSpecFile(path, pkgPath string) (*SpecFile, error) {
 			}
 			m.Pkg = pkgPath
 			sf.Macros = append(sf.Macros, m)
+		case "ownership":
+			// `ownership Type.field`: an atomic.Bool that is the ownership token of the
+			// queue: CAS(false,true) success sets ghost.owner, Store(false) clears it
+			tf := strings.SplitN(strings.TrimSpace(rest), ".", 2)
+			if len(tf) != 2 {
+				return nil, fail(i, "ownership: want `ownership Type.field`")
+			}
+			sf.Guards = append(sf.Guards, &Guard{Pkg: pkgPath, Type: tf[0], Field: tf[1], Mutex: "", OwnerReads: false})
 		case "guard":
 			f := strings.Fields(rest)
 			if len(f) < 3 || f[1] != "by" || !strings.Contains(f[0], ".") {
@@ -793,7 +801,7 @@ func parseSpecFile(path, pkgPath string) (*SpecFile, error) {
 				}
 				ex := strings.TrimSpace(strings.TrimPrefix(strings.TrimSpace(strings.TrimPrefix(rest, parts[0])), kind))
 				lab := ""
-				if kind == "invariant" {
+				if kind == "invariant" || kind == "assume" {
 					lab, ex = splitLabel(ex)
 				}
 				e, err := parseSpecExpr(ex)
